@@ -1287,6 +1287,10 @@ pub fn info_lists_with(rng: &mut Rng, be: bool, asz: u8, dwo: bool, version: u16
             root_attrs.push((0x8c, 0x17));
         } else if dwo {
             root_attrs.push((0x2133, ptr_form));
+            // DW_AT_GNU_ranges_base: added to DW_AT_ranges offsets in a DWO file
+            if rng.bool() {
+                root_attrs.push((0x2132, ptr_form));
+            }
         }
     }
     let root_ranges = rng.bool();
@@ -1387,6 +1391,15 @@ pub fn info_lists_with(rng: &mut Rng, be: bool, asz: u8, dwo: bool, version: u16
             }
             0x73 | 0x2133 => emit_ref(&mut a, *f, if rng.chance(1, 10) { rng.interesting() } else { addr_base as u64 }),
             0x74 => emit_ref(&mut a, *f, if rng.chance(1, 10) { rng.interesting() } else { rnglists_base as u64 }),
+            0x2132 => emit_ref(
+                &mut a,
+                *f,
+                match rng.below(4) {
+                    0 => rng.interesting(),
+                    1 => u64::MAX - rng.below(0x40),
+                    _ => 0,
+                },
+            ),
             0x8c => emit_ref(&mut a, *f, if rng.chance(1, 10) { rng.interesting() } else { loclists_base as u64 }),
             _ => {
                 let v = list_ref(rng, &rng_offsets, rnglists_base, *f);
